@@ -375,9 +375,15 @@ bool Exec<Cfg>::run_real(Op const& op) {
 				if(op.kind == O_VSWAP) {
 					if(op.var == 0) std::move(dv).swap(std::move(sv));
 					else if(op.var == 1) swap(std::move(dv), std::move(sv));
-					else {  // two named views, the idiomatic call
+					else if(op.var == 2) {  // two named views, the idiomatic call
 						using std::swap;
 						swap(dv, sv);
+					} else if(op.var == 3) {  // the mixed value categories (each its own overload): a temporary view with a named one ...
+						using std::swap;
+						swap(std::move(dv), sv);
+					} else {  // ... and the other way round
+						using std::swap;
+						swap(dv, std::move(sv));
 					}
 				} else {
 					switch(op.var) {
@@ -449,8 +455,22 @@ bool Exec<Cfg>::run_real(Op const& op) {
 #undef MSIM_ACT
 			} break;
 			case O_VFILL:
-				if constexpr(D == 1) { E const val = ET::make(op.v); OpScope s; dv.fill(val); }
-				else handled = false;
+				if(op.var == 0) {
+					if constexpr(D == 1) { E const val = ET::make(op.v); OpScope s; dv.fill(val); }
+					else handled = false;
+				} else {  // every element written through the arithmetic of the flat elements() iterators (seeded C05-r7-m1): a jump from
+					// begin() by n, += n on a named iterator, operator[] of the range - each must designate the n-th element of the view
+					std::vector<E, hallocator<E>> e;
+					long const cnt = static_cast<long>(dv.num_elements());
+					fill_values(e, static_cast<std::size_t>(cnt), op.v);
+					OpScope s;
+					auto&&  els = dv.elements();
+					for(long n = 0; n < cnt; ++n) {
+						if(op.var == 1) *(els.begin() + n) = e[static_cast<std::size_t>(n)];
+						else if(op.var == 2) { auto it = els.begin(); it += n; *it = e[static_cast<std::size_t>(n)]; }
+						else els[n] = e[static_cast<std::size_t>(n)];
+					}
+				}
 				break;
 			case O_EASSIGN_IL: {
 				std::vector<E, hallocator<E>> e;
